@@ -72,7 +72,7 @@ PROPS = {
              "history of 20..80 successful template/data SendSet calls with 1..400 records; one third of the sessions start 1..600 records "
              "below 2^32 (VerifSetSeqNumber hook) and cross the wrap. Every captured message: seq == running data-record count incl. this "
              "message mod 2^32 (templates do not advance it), configured observation domain, export time inside the wall-clock-second "
-             "interval sampled around the call, what arrives per call == one message; nothing else at the peer at the end. "
+             "interval sampled around the call, what arrives per call == one message (cut at its own length field) of exactly the byte count SendSet reported; nothing else at the peer at the end. "
              "One session in 16 is a UDP session with the 1 s template refresh running concurrently with 2.3 s of application sends (half of them "
              "starting just below 2^32): the rule is checked in capture order on every datagram, whoever sent it. "
              "Non-trivial = a template between data messages, or the wrap crossed; distinct by hash of the (kind, record count) list.",
@@ -188,7 +188,7 @@ PROPS = {
              "minimum refresh interval against a raw UDP peer, one application goroutine sending 1..4 templates (one more mid-run in half of "
              "the sessions) and paced data (bursts / 0-2 ms gaps / idle) for 4.3 s: every datagram exactly one well-formed message, application "
              "messages unaltered and in order, every refresh copy equal to the original template, per-template refresh counts within 1 of each "
-             "other, sequence numbers following the running record count in capture order; zero refresh copies after 4 and then 8 intervals "
+             "other (sequence numbers under refresh are C08's business and checked there); zero refresh copies after 4 and then 8 intervals "
              "is a violation. backpressure: a TCP peer that accepts but does not read until the sender has been stuck for 300 ms, CheckConnInterval "
              "20 ms, 600-1200 sends of 8-12 KB: every SendSet must succeed and the drained stream must be exactly the application's messages. jsonrefresh: the same with SendJSONRecord: the peer must see exactly the application's JSON documents, in order, and "
              "nothing else across two refresh ticks. peerclose: TCP exporter, CheckConnInterval 25 ms, peer closes, silent wait 1/2/4 s, the first SendSet must "
